@@ -213,6 +213,12 @@ func (u *Unit) callMods(c *ssa.CallCommon, m *modSet, seen map[*ssa.Function]boo
 	if benign(name) {
 		return
 	}
+	if u.spec != nil && u.spec.Dyn != nil && name == "" {
+		if ds, ok := u.spec.Dyn[calleeShort(c)]; ok {
+			u.specMods(ds, m)
+			return
+		}
+	}
 	// dynamic call of a captured closure variable: resolved at execution time; conservatively everything
 	m.all = true
 	m.excepts = append(m.excepts, nil)
